@@ -28,7 +28,9 @@ def float_texts(rng):
 def string_texts(rng):
     out = ["", "a", "abc", "Hello World", "a;b", "a;;b", ";", "x\ty", "x\ny", "x\ry", " lead", "trail ", "None",
            "0", "-", ".", "ÄÖ", "日本語", "a,b", "#x", "\x00", "'q'", '"dq"', "\\n", "p.Val600Glu", "c.1799T>A",
-           "ENST00000288602"]
+           "ENST00000288602",
+           # quote characters have no meaning in a MAF field (no spreadsheet-style quoting): kept verbatim
+           '"', '""', '"""q"""', '"a ""b"" c"', '"open', 'x"y', "'", '"a;b"']
     for _ in range(3):
         n = rng.randrange(1, 12)
         out.append("".join(rng.choice("abcXYZ012 _-.;") for _ in range(n)))
